@@ -15,6 +15,6 @@ REGISTRY = {
         'level_note': 'Trusted: Lean kernel (+leanchecker), axioms propext/Quot.sound; Spec/Actions.lean as the reading of the property\'s wording; the model of ast.rs is validated by the correspondence stream (random trees, depth<=12); overflow of byte_size beyond 64 bits is modelled per profile (panic/wrap) and compared, but the property does not constrain it.',
     },
 }
-for _p in ['C03', 'C05', 'C06', 'C07', 'C08', 'C13', 'C14', 'C17', 'C18']:
+for _p in ['C03', 'C05', 'C06', 'C07', 'C08', 'C13', 'C14', 'C17', 'C18', 'C02', 'C04', 'C09', 'C10', 'C11', 'C12', 'C15', 'C16', 'C20']:
     REGISTRY.setdefault(_p, {'claimed': False, 'profiles': ['debug', 'release'] if _p in ('C03', 'C07', 'C17') else ['debug'],
                              'cross_profile': _p == 'C17', 'level_text': '', 'level_note': ''})
